@@ -545,7 +545,10 @@ def pack_into_passes(nng, arch, verbose_packing=False):
                 pass_list.append(ps)
 
         # Sort ops by op_index (same call order as in the original graph)
-        pass_list_top = sorted(pass_list_top, key=lambda ps: -1 if ps.ops[0].op_index is None else ps.ops[0].op_index)
+        # (the startup pass stays first whatever its first operation is: a SHAPE operator folded into a constant keeps its op_index)
+        pass_list_top = sorted(
+            pass_list_top, key=lambda ps: -1 if ps == startup_ps or ps.ops[0].op_index is None else ps.ops[0].op_index
+        )
 
         # Sort the rest of the list based on critera 2.
         # Search from bottom of list and when a CPU pass is found
